@@ -493,6 +493,12 @@ func (d *cfgDynamic) toConfig(opts *options) (cfg *Config, err error) {
 }
 
 func (d *cfgDynamic) withValue(err *error, opts *options, fn func(value)) {
+	// References resolved for this value are active (for the detection of
+	// cycles) until the value has been consumed by fn, not any longer.
+	parentFields := opts.activeFields
+	opts.activeFields = newFieldSet(parentFields)
+	defer func() { opts.activeFields = parentFields }()
+
 	var v value
 	if v, *err = d.getValue(opts); *err == nil {
 		fn(v)
